@@ -68,36 +68,42 @@ Proof.
     exists (p_sig Q). split; [apply In_exp_types; exists Q; tauto | exact S].
 Qed.
 
-Lemma first_errs_nil c k : first_errs c k = [] <-> exp_errs c k = [] /\ rec_errs c k = [].
-Proof. unfold first_errs. destruct (exp_errs c k); split; try tauto; try (intros [H _]; discriminate); discriminate. Qed.
+Lemma first_errs_nil c k :
+  lookup_conn k (conns c) <> Some None -> (first_errs c k = [] <-> exp_errs c k = [] /\ rec_errs c k = []).
+Proof.
+  intros L. unfold first_errs. destruct (lookup_conn k (conns c)) as [[p|]|]; try congruence;
+    destruct (exp_errs c k); split; try tauto; try (intros [H _]; discriminate); discriminate.
+Qed.
+
+Lemma first_errs_nil_factory c k : first_errs c k = [] -> lookup_conn k (conns c) <> Some None.
+Proof. unfold first_errs. intros H E. rewrite E in H. discriminate. Qed.
+
+Lemma supported_has_factory c k E R : supported c k E R = true -> lookup_conn k (conns c) <> Some None.
+Proof. unfold supported. intros H L. rewrite L in H. discriminate. Qed.
 
 Lemma possible_errors_nil c : possible_errors c = [] <-> connectors_supported c.
 Proof.
   unfold possible_errors, connectors_supported. rewrite flat_map_nil_iff. split.
   - intros H k P C HP. split; intros Hk.
     + assert (U : In k (used_conns c)) by (apply In_used_conns; split; [exact C | exists P; tauto]).
-      apply H, first_errs_nil in U. destruct U as [U _]. apply (proj1 (exp_errs_nil c k) U P HP Hk).
+      apply H in U. pose proof (first_errs_nil_factory c k U) as L. apply (first_errs_nil c k L) in U.
+      destruct U as [U _]. apply (proj1 (exp_errs_nil c k) U P HP Hk).
     + assert (U : In k (used_conns c)) by (apply In_used_conns; split; [exact C | exists P; tauto]).
-      apply H, first_errs_nil in U. destruct U as [_ U]. apply (proj1 (rec_errs_nil c k) U P HP Hk).
-  - intros H k U. apply In_used_conns in U. destruct U as [C _]. apply first_errs_nil. split.
+      apply H in U. pose proof (first_errs_nil_factory c k U) as L. apply (first_errs_nil c k L) in U.
+      destruct U as [_ U]. apply (proj1 (rec_errs_nil c k) U P HP Hk).
+  - intros H k U. apply In_used_conns in U. destruct U as [C [P0 [HP0 Huse]]]. apply first_errs_nil.
+    { destruct Huse as [Hk|Hk]; [destruct (proj2 (H k P0 C HP0) Hk) as [Q [_ [_ S]]] | destruct (proj1 (H k P0 C HP0) Hk) as [Q [_ [_ S]]]];
+        apply (supported_has_factory _ _ _ _ S). }
+    split.
     + apply exp_errs_nil. intros P HP Hk. apply (H k P C HP). exact Hk.
     + apply rec_errs_nil. intros P HP Hk. apply (H k P C HP). exact Hk.
 Qed.
 
 (* ---- build = Ok ---------------------------------------------------------------------------------- *)
-Lemma build_ok_iff_l c g :
-  build c = Ok g <->
-  g = mkG (nodes_of c) (edges_of c) /\ procs_distinct c /\ connectors_supported c /\ acyclic (edges_of c).
-Proof.
-  split.
-  - intros B. apply build_ok_inv in B. destruct B as [E [D [PE A]]]. apply possible_errors_nil in PE. tauto.
-  - intros [-> [D [S A]]]. unfold build.
-    rewrite (proj2 (no_dup_procs_iff c) D).
-    rewrite (proj2 (possible_errors_nil c) S). simpl.
-    rewrite (proj2 (cyclic_false_iff _ _ (edges_closed_of c)) A). reflexivity.
-Qed.
+Lemma In_created_pre c n : In n (filter is_component (nodes_of c)) <-> In n (created (mkG (nodes_of c) (edges_of c))).
+Proof. reflexivity. Qed.
 
-Lemma build_err_class c :
+Lemma build_err_class_pre c :
   (build c = Err EPanic <-> ~ procs_distinct c) /\
   (build c = Err EUnsupported <-> procs_distinct c /\ ~ connectors_supported c) /\
   (build c = Err ECycle <-> procs_distinct c /\ connectors_supported c /\ ~ acyclic (edges_of c)).
@@ -115,7 +121,8 @@ Proof.
       * assert (NA : ~ acyclic (edges_of c)) by (intros H; apply A in H; discriminate).
         split; [|split]; (split; intros HH); try reflexivity; try tauto; try discriminate.
       * assert (HA : acyclic (edges_of c)) by (apply A; reflexivity).
-        split; [|split]; (split; intros HH); try reflexivity; try tauto; try discriminate.
+        destruct (existsb (cannot_create c) (filter is_component (nodes_of c)));
+          (split; [|split]; (split; intros HH); try reflexivity; try tauto; try discriminate).
     + assert (NS : ~ connectors_supported c) by (intros H; apply S in H; discriminate).
       split; [|split]; (split; intros HH); try reflexivity; try tauto; try discriminate.
 Qed.
@@ -208,21 +215,100 @@ Proof.
       apply In_conn_links. tauto.
 Qed.
 
+Lemma factories_serve_iff c :
+  existsb (cannot_create c) (filter is_component (nodes_of c)) = false <-> factories_serve c.
+Proof.
+  unfold factories_serve. split.
+  - intros H n Hn. apply In_created, In_created_pre in Hn. destruct (cannot_create c n) eqn:E; [|reflexivity].
+    assert (T : existsb (cannot_create c) (filter is_component (nodes_of c)) = true) by (apply existsb_exists; exists n; tauto).
+    congruence.
+  - intros H. destruct (existsb (cannot_create c) (filter is_component (nodes_of c))) eqn:E; [|reflexivity].
+    apply existsb_exists in E. destruct E as [n [Hn E]]. apply In_created_pre, In_created in Hn. rewrite (H n Hn) in E. discriminate.
+Qed.
+
+Lemma build_ok_iff_l c g :
+  build c = Ok g <->
+  g = mkG (nodes_of c) (edges_of c) /\ procs_distinct c /\ connectors_supported c /\ acyclic (edges_of c) /\
+  factories_serve c.
+Proof.
+  split.
+  - intros B. pose proof B as B'. apply build_ok_inv in B. destruct B as [E [D [PE A]]]. apply possible_errors_nil in PE.
+    repeat (split; [assumption|]). apply factories_serve_iff.
+    unfold build in B'. destruct (existsb (fun P => has_dup (p_procs P)) (pipes c)); [discriminate|].
+    destruct (negb (is_nil (possible_errors c))); [discriminate|].
+    destruct (cyclic (nodes_of c) (edges_of c)); [discriminate|].
+    destruct (existsb (cannot_create c) (filter is_component (nodes_of c))); [discriminate | reflexivity].
+  - intros [-> [D [S [A F]]]]. unfold build.
+    rewrite (proj2 (no_dup_procs_iff c) D).
+    rewrite (proj2 (possible_errors_nil c) S). simpl.
+    rewrite (proj2 (cyclic_false_iff _ _ (edges_closed_of c)) A).
+    rewrite (proj2 (factories_serve_iff c) F). reflexivity.
+Qed.
+
+Lemma build_err_class c :
+  (build c = Err EPanic <-> ~ procs_distinct c) /\
+  (build c = Err EUnsupported <-> procs_distinct c /\ ~ connectors_supported c) /\
+  (build c = Err ECycle <-> procs_distinct c /\ connectors_supported c /\ ~ acyclic (edges_of c)) /\
+  (build c = Err EFactory <->
+     procs_distinct c /\ connectors_supported c /\ acyclic (edges_of c) /\ ~ factories_serve c).
+Proof.
+  destruct (build_err_class_pre c) as [H1 [H2 H3]]. repeat (split; [assumption|]).
+  destruct (build c) as [g|e] eqn:B.
+  - apply build_ok_iff_l in B. split; [discriminate | tauto].
+  - assert (NOk : ~ (procs_distinct c /\ connectors_supported c /\ acyclic (edges_of c) /\ factories_serve c)).
+    { intros [D [S [A F]]]. assert (B' : build c = Ok (mkG (nodes_of c) (edges_of c))) by (apply build_ok_iff_l; tauto). congruence. }
+    destruct e.
+    + split; [discriminate|]. intros [D _]. apply H1 in D; [contradiction | reflexivity].
+    + split; [discriminate|]. intros [D [S _]]. assert (E : Err EUnsupported = Err EUnsupported) by reflexivity. apply H2 in E. tauto.
+    + split; [discriminate|]. intros [D [S [A _]]]. assert (E : Err ECycle = Err ECycle) by reflexivity. apply H3 in E. tauto.
+    + split; [intros _ | reflexivity].
+      assert (D : procs_distinct c).
+      { unfold build in B. apply no_dup_procs_iff. destruct (existsb (fun P => has_dup (p_procs P)) (pipes c)); [discriminate | reflexivity]. }
+      assert (S : connectors_supported c).
+      { unfold build in B. apply possible_errors_nil. destruct (existsb (fun P => has_dup (p_procs P)) (pipes c)); [discriminate|].
+        destruct (possible_errors c); [reflexivity | discriminate]. }
+      assert (A : acyclic (edges_of c)).
+      { unfold build in B. apply (cyclic_false_iff _ _ (edges_closed_of c)).
+        destruct (existsb (fun P => has_dup (p_procs P)) (pipes c)); [discriminate|].
+        destruct (negb (is_nil (possible_errors c))); [discriminate|].
+        destruct (cyclic (nodes_of c) (edges_of c)); [discriminate | reflexivity]. }
+      tauto.
+Qed.
+
 Lemma NoDup_created c : NoDup (created (mkG (nodes_of c) (edges_of c))).
 Proof. unfold created. simpl. apply NoDup_filter. apply (NoDup_dedup node_eqb node_eqb_spec). Qed.
 
 (* ---- nothing is started on error -------------------------------------------------------------------- *)
-Lemma service_log_err c e : build c = Err e -> service_log c = [].
-Proof. intros H. unfold service_log. rewrite H. destruct (validate c); reflexivity. Qed.
+Lemma create_until_spec c ord n : In n (create_until c ord) -> In n ord /\ cannot_create c n = false.
+Proof.
+  induction ord as [|a ord IH]; simpl; [intros []|]. destruct (cannot_create c a) eqn:E; [intros []|].
+  intros [<-|H]; [tauto|]. destruct (IH H). tauto.
+Qed.
 
-Lemma service_log_invalid c : validate c = false -> service_log c = [].
+Lemma service_log_err ord c e :
+  build c = Err e ->
+  (e <> EFactory -> service_log ord c = []) /\
+  (forall n, ~ In (Start n) (service_log ord c)) /\
+  (forall n, In (Create n) (service_log ord c) -> In n ord /\ cannot_create c n = false).
+Proof.
+  intros H. unfold service_log. rewrite H. destruct (validate c).
+  2:{ split; [intros _; reflexivity|]. split; intros n []. }
+  destruct e.
+  1-3: (split; [intros _; reflexivity|]; split; intros n []).
+  split; [intros NE; congruence|].
+  split; intros n Hn; apply in_map_iff in Hn; destruct Hn as [x [E Hx]]; [discriminate|].
+  inversion E; subst. apply (create_until_spec c ord n Hx).
+Qed.
+
+Lemma service_log_invalid ord c : validate c = false -> service_log ord c = [].
 Proof. intros H. unfold service_log. rewrite H. reflexivity. Qed.
 
-Lemma service_log_start c n :
-  In (Start n) (service_log c) ->
-  validate c = true /\ exists g, build c = Ok g /\ In n (created g) /\ In (Create n) (service_log c).
+Lemma service_log_start ord c n :
+  In (Start n) (service_log ord c) ->
+  validate c = true /\ exists g, build c = Ok g /\ In n (created g) /\ In (Create n) (service_log ord c).
 Proof.
-  unfold service_log. destruct (validate c); [|intros []]. destruct (build c) as [g|e]; [|intros []].
+  unfold service_log. destruct (validate c); [|intros []]. destruct (build c) as [g|e];
+    [|destruct e; try (intros []); intros Hn; apply in_map_iff in Hn; destruct Hn as [x [E _]]; discriminate].
   cbv beta iota. rewrite !in_app_iff, !in_map_iff. intros [[x [E _]]|[x [E Hx]]]; [discriminate|]. inversion E; subst.
   split; [reflexivity|]. exists g. split; [reflexivity|]. split; [exact Hx|]. apply in_app_iff. left. apply in_map. exact Hx.
 Qed.
